@@ -33,35 +33,38 @@ inductive Res (α : Type)
   | val (v : Option α)         -- the value returned by get / value
   | flag (b : Bool)            -- is_set
   | unit
-  | raised                     -- AttributeError
+  | raised                     -- an exception leaves the method (AttributeError, or the provider's own)
 deriving DecidableEq, Repr
 
-/-- one operation of the calling thread on ITS slot -/
-def opStep {α : Type} [DecidableEq α] (dp : Nat → Option α) (calls : Nat) (slot : Slot α) :
+/-- one operation of the calling thread on ITS slot.  `dp k` = what the k-th call of the instance's default provider
+    does: `some v` = returns `v` (`v = none`: returns `None`), `none` = raises. -/
+def opStep {α : Type} [DecidableEq α] (dp : Nat → Option (Option α)) (calls : Nat) (slot : Slot α) :
     Op α → Slot α × Nat × Res α
   | .get => match tlGet dp calls slot with
-    | none => (slot, calls, .raised)
-    | some (s, c, v) => (s, c, .val v)
+    | (s, c, none) => (s, c, .raised)
+    | (s, c, some v) => (s, c, .val v)
   | .set v => match tlSet dp v calls slot with
-    | none => (slot, calls, .raised)
-    | some (s, c, _) => (s, c, .unit)
+    | (s, c, none) => (s, c, .raised)
+    | (s, c, some _) => (s, c, .unit)
   | .clear => match tlClear dp calls slot with
-    | none => (slot, calls, .raised)
-    | some (s, c, _) => (s, c, .unit)
+    | (s, c, none) => (s, c, .raised)
+    | (s, c, some _) => (s, c, .unit)
   | .isSet => match tlIsSet dp calls slot with
-    | none => (slot, calls, .raised)
-    | some (s, c, b) => (s, c, .flag b)
+    | (s, c, none) => (s, c, .raised)
+    | (s, c, some b) => (s, c, .flag b)
   | .valueGet => match tlValueGet dp calls slot with
-    | none => (slot, calls, .raised)
-    | some (s, c, v) => (s, c, .val v)
+    | (s, c, none) => (s, c, .raised)
+    | (s, c, some v) => (s, c, .val v)
   | .valueSet v => match tlValueSet dp v calls slot with
-    | none => (slot, calls, .raised)
-    | some (s, c, _) => (s, c, .unit)
+    | (s, c, none) => (s, c, .raised)
+    | (s, c, some _) => (s, c, .unit)
   | .update f => match tlGet dp calls slot with
-    | none => (slot, calls, .raised)
-    | some (s, c, none) => (s, c, .raised)                 -- `None.append(..)`: AttributeError
-    | some (s, c, some v) =>
-      -- the mutation is visible in the store iff `get` handed out the stored object
+    | (s, c, none) => (s, c, .raised)                      -- the provider raised
+    | (s, c, some none) => (s, c, .raised)                 -- `None.append(..)`: AttributeError
+    | (s, c, some (some v)) =>
+      -- the mutation is visible in the store iff `get` handed out the stored object.  ("Same object" is decided by
+      -- VALUE equality here: a `get` that stored a copy would look the same — excluded only by the extractor's
+      -- vocabulary, in which the stored and the returned expression are one local.)
       (if s = some (some v) then some (some (f v)) else s, c, .unit)
 
 abbrev Thr := Nat
@@ -73,12 +76,12 @@ structure St (κ α : Type) where
 def St.empty {κ α : Type} : St κ α := ⟨fun _ => none, 0⟩
 
 /-- one operation of thread `t` on a store keyed by `key t` -/
-def stepK {κ α : Type} [DecidableEq κ] [DecidableEq α] (key : Thr → κ) (dp : Nat → Option α) (S : St κ α)
+def stepK {κ α : Type} [DecidableEq κ] [DecidableEq α] (key : Thr → κ) (dp : Nat → Option (Option α)) (S : St κ α)
     (te : Thr × Op α) : St κ α × Res α :=
   let r := opStep dp S.calls (S.store (key te.1)) te.2
   (⟨fun k => if k = key te.1 then r.1 else S.store k, r.2.1⟩, r.2.2)
 
-def runK {κ α : Type} [DecidableEq κ] [DecidableEq α] (key : Thr → κ) (dp : Nat → Option α) :
+def runK {κ α : Type} [DecidableEq κ] [DecidableEq α] (key : Thr → κ) (dp : Nat → Option (Option α)) :
     St κ α → List (Thr × Op α) → St κ α × List (Thr × Res α)
   | S, [] => (S, [])
   | S, te :: rest =>
@@ -87,10 +90,10 @@ def runK {κ α : Type} [DecidableEq κ] [DecidableEq α] (key : Thr → κ) (dp
     (r2.1, (te.1, r1.2) :: r2.2)
 
 /-- `threading.local()`: keyed by the thread object -/
-def stepT {α : Type} [DecidableEq α] (dp : Nat → Option α) (S : St Thr α) (te : Thr × Op α) : St Thr α × Res α :=
+def stepT {α : Type} [DecidableEq α] (dp : Nat → Option (Option α)) (S : St Thr α) (te : Thr × Op α) : St Thr α × Res α :=
   stepK id dp S te
 
-def runT {α : Type} [DecidableEq α] (dp : Nat → Option α) (S : St Thr α) (gs : List (Thr × Op α)) :
+def runT {α : Type} [DecidableEq α] (dp : Nat → Option (Option α)) (S : St Thr α) (gs : List (Thr × Op α)) :
     St Thr α × List (Thr × Res α) :=
   runK id dp S gs
 
@@ -102,7 +105,7 @@ def projRes {α : Type} (t : Thr) (rs : List (Thr × Res α)) : List (Res α) :=
   rs.filterMap (fun te => if te.1 = t then some te.2 else none)
 
 /-- a thread alone: its slot and the results of its operations -/
-def solo {α : Type} [DecidableEq α] (dp : Nat → Option α) : Nat → Slot α → List (Op α) → Slot α × List (Res α)
+def solo {α : Type} [DecidableEq α] (dp : Nat → Option (Option α)) : Nat → Slot α → List (Op α) → Slot α × List (Res α)
   | _, slot, [] => (slot, [])
   | calls, slot, op :: ops =>
     let r := opStep dp calls slot op
